@@ -422,7 +422,7 @@ def output_scenarios(r, n):
     while len(out) < n and tries < n * 20:
         tries += 1
         minor = r.choice([4, 5])
-        outs = r.choice([3, 4, 6, 7])
+        outs = r.choice([2, 3, 4, 5, 6, 7])
         ab = {"minor": minor, "nbmd": 0, "cells": [
             {"cid": 1, "fam": r.choice([1, 3, 7]), "kind": "code", "src": 0, "outs": outs, "md": 0, "ec": 1, "att": 0},
             {"cid": 2, "fam": 2, "kind": "markdown", "src": 0, "outs": 0, "md": 0, "ec": 0, "att": 0}]}
@@ -431,10 +431,11 @@ def output_scenarios(r, n):
         base = concrete(ab)
         ci = [i for i, c in enumerate(base.cells) if c.cell_type == "code"][0]
         nouts = len(base.cells[ci].outputs)
-        if nouts < 2:
-            continue
         local, remote = copy.deepcopy(base), copy.deepcopy(base)
-        i, j = r.sample(range(nouts), 2)
+        if nouts < 2:
+            i = j = 0
+        else:
+            i, j = r.sample(range(nouts), 2)
         label = []
         fi = _output_fields(base.cells[ci].outputs[i])
         fj = _output_fields(base.cells[ci].outputs[j])
@@ -444,12 +445,25 @@ def output_scenarios(r, n):
                 cur = _get(side.cells[ci].outputs[i], p)
                 _set(side.cells[ci].outputs[i], p, (cur or "") + " %s-edit" % tag if k == "text" else {"by": tag})
             label.append(("independent", i, pa, pb))
-        if fj and r.random() < 0.8:
+        if fj and j != i and r.random() < 0.8:
             p, k = r.choice(fj)
             for side, tag in ((local, "L"), (remote, "R")):
                 cur = _get(side.cells[ci].outputs[j], p)
                 _set(side.cells[ci].outputs[j], p, (cur or "") + " %s-conflict" % tag if k == "text" else {"by": tag})
             label.append(("conflict", j, p))
+        # one side deletes an output whose only change on the other side is transient (execution_count)
+        ers = [q for q, o in enumerate(base.cells[ci].outputs) if o["output_type"] == "execute_result"]
+        if ers and r.random() < 0.5:
+            q = r.choice(ers)
+            deleter, rerunner = (local, remote) if r.random() < 0.5 else (remote, local)
+            rerunner.cells[ci].outputs[q]["execution_count"] = (base.cells[ci].outputs[q].get("execution_count") or 0) + 5
+            rerunner.cells[ci]["execution_count"] = (base.cells[ci].get("execution_count") or 0) + 5
+            del deleter.cells[ci].outputs[q]
+            local, remote = (deleter, rerunner) if deleter is local else (rerunner, deleter)
+            label = [("delete-vs-rerun", q, "local deletes" if deleter is local else "remote deletes")]
+            if all(is_valid(x) for x in (base, local, remote)):
+                out.append((base, local, remote, label))
+            continue
         if r.random() < 0.3:
             local.cells[ci].outputs.append(nbformat.v4.new_output("stream", name="stdout", text="local appended\n"))
             label.append(("local-append",))
